@@ -76,9 +76,15 @@ def call_speclib(E, name, args, kwargs, st, node):
         return [(st, equal(ops._tb(a), ops._tb(b)))]
     if name in ("forall_range", "exists_range"):
         lo, hi, f = args
-        k = z3.Int(fresh_name("q"))
-        body = E.pure_call(f, [k], st)
-        guard = z3.And(k >= to_int_term(lo), k < to_int_term(hi))
+        if is_bv(lo) or is_bv(hi) or E.bv:
+            w = lo.size() if is_bv(lo) else (hi.size() if is_bv(hi) else E.bv)
+            k = z3.BitVec(fresh_name("q"), w)
+            body = E.pure_call(f, [k], st)
+            guard = z3.And(k >= ops.to_bv(lo, w), k < ops.to_bv(hi, w))
+        else:
+            k = z3.Int(fresh_name("q"))
+            body = E.pure_call(f, [k], st)
+            guard = z3.And(k >= to_int_term(lo), k < to_int_term(hi))
         bt = ops._tb(truth(body))
         if name == "forall_range":
             return [(st, z3.ForAll([k], z3.Implies(guard, bt)))]
@@ -554,6 +560,10 @@ def _bi_super(E, args, kwargs, st, node):
     return [(st, SuperProxy(args[1], args[0].node.name))]
 
 
+def _bi_type(E, args, kwargs, st, node):
+    return [(st, ObjV("type", {"__name__": StrV()}))]
+
+
 def _bi_round(E, args, kwargs, st, node):
     raise EngineError("round() not modelled")
 
@@ -569,7 +579,7 @@ BUILTINS = {
     "reversed": _bi_reversed, "sorted": _bi_sorted, "isinstance": _bi_isinstance, "slice": _bi_slice,
     "divmod": _bi_divmod, "bytes": _bi_bytes, "bytearray": _bi_bytes, "set": _bi_set, "frozenset": _bi_set,
     "dict": _bi_dict, "str": _bi_str, "repr": _bi_str, "getattr": _bi_getattr, "next": _bi_next, "iter": _bi_iter,
-    "pow": _bi_pow, "super": _bi_super,
+    "pow": _bi_pow, "super": _bi_super, "type": _bi_type,
 }
 
 
